@@ -720,6 +720,7 @@ type Case struct {
 	Hit      int    `json:"hit"`  // crash point number (0 = truncation case)
 	Mode     string `json:"mode"` // client | library
 	Trunc    string `json:"trunc,omitempty"`
+	Second   string `json:"second,omitempty"` // second crash: capture name of the stage-2 process ("" = single crash)
 }
 
 func main() {
